@@ -234,4 +234,26 @@ pub proof fn lemma_diff_shape<'a>(a: Seq<Comp<'a>>, b: Seq<Comp<'a>>, k: int)
     assert(all_normal(a.skip(k)));
 }
 
+// normalising twice is normalising once
+pub broadcast proof fn lemma_abs_idempotent(c: Seq<Comp>)
+    requires is_canonical(c)
+    ensures #[trigger] abs_of(c) == Some(c)
+{
+    broadcast use axiom_cwd_rooted;
+    assert(join_comps(spec_cwd(), c) == c);
+    lemma_prefix_is_fold(c, c.len() as int);
+    assert(c.take(c.len() as int) =~= c);
+    let e = Some(Seq::<Comp>::empty());
+    assert(c =~= seq![c[0]] + c.skip(1));
+    lemma_fold_concat(e, seq![c[0]], c.skip(1));
+    let em = Seq::<Comp>::empty();
+    assert(seq![c[0]] =~= em.push(c[0]));
+    lemma_fold_push(e, em, c[0]);
+    assert(norm_fold(e, em) == e);
+    assert(norm_step(e, c[0]) == Some(em.push(c[0])));
+    assert(all_normal(c.skip(1)));
+    lemma_fold_normals(seq![c[0]], c.skip(1));
+}
+
+
 } // verus!
